@@ -11,7 +11,8 @@ and derives what must / may be reported:
          exactly 8 bytes  =>  `received` strobes once shortly after, with the 8 bytes as fields, and is ACKed once
          inside the response window -- whatever came before (corrupted, short, aborted or unrelated packets).
   may:   `received` only strobes for a CRC-valid 8-byte data packet while a SETUP token for us is the last token
-         addressed to us and no CRC-valid data packet came in between.
+         addressed to us and it has not been consumed by an earlier report (what the device does with wrong-length or
+         corrupted data packets in between is left open: the statement does not say).
 """
 from amaranth import *
 from ..harness import Harness
@@ -30,6 +31,7 @@ ASSUMPTIONS = [
     "speed constant HIGH or FULL at a 60 MHz UTMI clock; device address constant (symbolic)",
     "the host never sends a SETUP token to a non-control endpoint of the device",
     "after a valid SETUP transaction the host stays silent until the device's handshake or its response deadline",
+    "at full speed consecutive packets are separated by at least 2 bit times (10 cycles) [USB 2.0 7.1.18]",
     "the spy request handler never claims the request (the stall-only fallback handler is active)",
     "`received` may follow the end of the data packet by 1..4 cycles (implementation latency is not part of the statement)",
 ]
@@ -80,7 +82,8 @@ class SetupHarness(Harness):
         self.v = {n: self.viol(n) for n in names}
         self.c = {n: self.cover(n) for n in ["received", "ack", "ack_fs", "after_bad_crc", "after_short_data",
                                              "after_aborted_setup", "wrong_length", "setup_then_in"]}
-        self.a = {n: self.assume(n) for n in ["utmi_rx", "speed", "no_setup_other_ep", "host_waits", "gapless"]}
+        self.a = {n: self.assume(n) for n in ["utmi_rx", "speed", "no_setup_other_ep", "host_waits", "gapless",
+                                              "min_packet_gap"]}
 
     def elaborate(self, platform):
         m = Module()
@@ -106,6 +109,17 @@ class SetupHarness(Harness):
             self.a["speed"].eq(self.speed < 2),
             self.a["gapless"].eq((u.rx_valid == (u.rx_active & prev_active)) if self.gapless else 1),
         ]
+        # USB 2.0 7.1.18: consecutive packets are at least 2 bit times apart (10 cycles of 60 MHz at full speed)
+        idle = Signal(4)
+        with m.If(u.rx_active):
+            m.d.usb += idle.eq(0)
+        with m.Elif(idle != 15):
+            m.d.usb += idle.eq(idle + 1)
+        seen_packet = Signal()
+        with m.If(u.rx_active):
+            m.d.usb += seen_packet.eq(1)
+        m.d.comb += self.a["min_packet_gap"].eq(~((self.speed == 1) & u.rx_active & ~prev_active & seen_packet &
+                                                  (idle < 10)))
         # ---- packet classifier
         spy = PacketSpy(m, "usb", u.rx_data, u.rx_active, u.rx_valid, 11)
         b = spy.bytes
@@ -147,16 +161,19 @@ class SetupHarness(Harness):
         wire_any = crc16_wire(m, r2, "rc16run_wire")
         m.d.comb += data_any_ok.eq(spy.end & data_pid & (nb >= 2) & (wire_any == Cat(l2, l1)))
 
+        must, may = Signal(name="must"), Signal(name="may")
         last_was_setup = Signal()    # the packet that ended most recently was a SETUP token for us
         armed = Signal()             # a SETUP token for us is the last token for us, no valid data packet since
         with m.If(spy.end):
             m.d.usb += last_was_setup.eq(setup_tok)
             with m.If(setup_tok):
                 m.d.usb += armed.eq(1)
-            with m.Elif(other_tok | data_any_ok):
+            with m.Elif(other_tok | may):
                 m.d.usb += armed.eq(0)
-        must, may = Signal(), Signal()
         m.d.comb += [must.eq(data8_ok & last_was_setup), may.eq(data8_ok & armed)]
+        for nm, sg in (("armed", armed), ("may", may), ("must", must), ("data8_ok", data8_ok), ("tok_ok", tok_ok),
+                       ("setup_tok", setup_tok), ("data_any_ok", data_any_ok), ("count", spy.count)):
+            self.obs(nm, sg)
 
         # ---- expectations on `received` (window of 1..4 cycles after the end of the data packet)
         must_d = [Signal(name=f"must_d{i}") for i in range(5)]
